@@ -1,5 +1,6 @@
 mod absval;
 mod calc;
+mod convert;
 mod cross;
 mod drivers;
 mod emit;
@@ -127,6 +128,11 @@ fn main() {
                     std::process::exit(2);
                 }
             }
+        }
+        "convert" => {
+            let seed: u64 = arg(&args, "--seed").and_then(|x| x.parse().ok()).unwrap_or(1);
+            let samples: usize = arg(&args, "--samples").and_then(|x| x.parse().ok()).unwrap_or(40);
+            println!("{}", convert::run(seed, samples));
         }
         "field" => {
             let seed: u64 = arg(&args, "--seed").and_then(|x| x.parse().ok()).unwrap_or(1);
